@@ -54,6 +54,7 @@ class SimDB:
         self._call_sets = 0
         self._call_dels = 0
         self.fired = None
+        self.dels_before_fire = 0
         self._withheld = None  # set of keys that read as absent for one call
         self.withheld_hits = []
         # optional read log and interposition callback
@@ -92,6 +93,7 @@ class SimDB:
         if fa is not None and self._call_sets == fa[0]:
             self._fail_set_at = None
             self.fired = ("set", fa[0], fa[1])
+            self.dels_before_fire = self._call_dels
             if fa[1]:
                 self._store(key, value)
             kind = FAILURE_KINDS[fa[2] if len(fa) > 2 else "E"]
